@@ -37,6 +37,9 @@ def scenarios(rnd, tier):
         h = c05.random_history(rnd)
         nums = sorted({op.split(":")[1] for op in h[3:].split(",") if op[0] in "ak" and ":" in op} | {"0", "3"})
         out.append(h + "," + ",".join("r:%s" % x for x in nums for _ in range(rnd.choice([1, 3, 8]))))
+    # element bodies and SSIDs at and beyond what the one-octet element length can say (created, replaced, removed)
+    out += [l for l in c03.boundary_lines() if "41" * 253 in l and "a1=000000000000" in l]
+    out += ["tg a:221:%s,a:0:%s,r:221,s:%s" % ("5a" * L, "41" * M, "42" * K) for L in (255, 256, 300) for M in (254, 255, 256) for K in (1, 255, 256)]
     crafted = c04.crafted(rnd, n // 8)
     out += crafted
     for l in crafted[: n]:
